@@ -289,10 +289,26 @@ def check_format_case(ctx: Ctx, c: Dict[str, Any], idx: int, scratch: str, dtype
                         rsig = dict(**sig, reader=reader)
                         try:
                             if reader == "deepali":
-                                if idx % 2:
+                                from pathlib import Path as _P
+
+                                form = (idx + (1 if compress else 0) + D) % 5
+                                if form == 0:
                                     obj = Image.read(path, align_corners=bool(g["ac"]))
+                                elif form == 1:
+                                    obj = Image.read(_P(path), align_corners=bool(g["ac"]))  # pathlib.Path instead of str
+                                elif form in (2, 3) and fmt == "mha":
+                                    # the native MetaImage reader also accepts the file's bytes and an open binary file
+                                    from deepali.utils.imageio.meta import read_meta_image
+
+                                    if form == 2:
+                                        with open(path, "rb") as fh_:
+                                            d2, g2 = read_meta_image(fh_.read())
+                                    else:
+                                        with open(path, "rb") as fh_:
+                                            d2, g2 = read_meta_image(fh_)
+                                    obj = Image(d2, g2.align_corners(bool(g["ac"])))
                                 else:
-                                    d2, g2 = read_image(path)
+                                    d2, g2 = read_image(path if form != 4 else _P(path))
                                     obj = Image(d2, g2.align_corners(bool(g["ac"])))  # the flag is not stored in files
                             else:
                                 obj = sitk.ReadImage(path)
